@@ -6,20 +6,23 @@
   its position relative to the `with …transaction(…)` blocks).
 
   * for ALL op sequences from the initial state:
-      `sequence_strictly_increasing`, `published_subset_committed` (+ `publish_order_eq_append_order`,
+      `sequence_strictly_increasing`, `published_subset_committed` (unconditional, for the source under
+      check via the generated flag; `…_of_not_swallowed` for either flag) (+ `publish_order_eq_append_order`,
       `published_after_commit`), `abort_publishes_nothing`, `abort_appends_nothing`,
       `crash_publishes_and_appends_nothing`, `inner_commit_defers_publication`;
     the model takes the flag `c` = "the inner-block branch of abort_store_transaction clears the queue"
-    (generated: `Stab.Gen.TxnShape.innerAbortClearsPending`, false as shipped); the publication theorems
+    (generated: `Stab.Gen.TxnShape.innerAbortClearsPending`; false as originally shipped, true since commit 50ce0ff); the publication theorems
     carry the hypothesis `swallowed = false` (no block committed after an inner block had rolled back,
     i.e. the inner exception propagated); `published_subset_committed_counterexample` shows the
-    hypothesis is needed for `c = false` (the code really publishes rolled-back events then — finding
-    F24; no handler nests blocks: the harness observes a maximal scope depth of 1 on every engine run),
+    hypothesis is needed for `c = false` (the code as originally shipped really published rolled-back
+    events then — finding F35, repaired; no handler nests blocks: the harness observes a maximal scope
+    depth of 1 on every engine run),
     `published_subset_committed_iff_inner_abort_clears` / `…_for_source`: the unrestricted statement
     holds iff `c = true`.
   * `event_durable_iff_state_durable`: a flat block (`begin; appends and state writes; end`) makes
     all of its events and all of its state writes durable and publishes the events iff it ends in
     `commit`; ending in `abort` or `crash` leaves both logs and the subscriber untouched.
+  * `completion_block_all_or_nothing`: the instance for a block holding one state write and one event append.
   * `completion_event_inside_commit`, `outside_transaction_sites_reviewed`, `inside_sites_store_the_entity` over the
     generated site table; `gen_txn_shape` over the generated shape facts of txn_scope.py / _record / transaction().
 -/
@@ -52,7 +55,7 @@ theorem uncommitted_sequences_follow_durable (c : Bool) (ops : List Op) :
 /-- **Every published event is durable, in the order in which it was appended** — the subscriber log is
     an order-preserving sublist of the durable log — provided no block committed after an inner block
     rolled back. -/
-theorem published_subset_committed (c : Bool) (ops : List Op) (h : (run c St.init ops).swallowed = false) :
+theorem published_subset_committed_of_not_swallowed (c : Bool) (ops : List Op) (h : (run c St.init ops).swallowed = false) :
     (run c St.init ops).published.Sublist (run c St.init ops).durable := by
   obtain ⟨_, hp⟩ := pubInv_run c ops St.init pubInv_init
   obtain ⟨d1, d2, hd, hpub, _⟩ := hp h
@@ -61,19 +64,19 @@ theorem published_subset_committed (c : Bool) (ops : List Op) (h : (run c St.ini
 
 theorem published_mem_durable (c : Bool) (ops : List Op) (h : (run c St.init ops).swallowed = false) (e : Ev)
     (he : e ∈ (run c St.init ops).published) : e ∈ (run c St.init ops).durable :=
-  (published_subset_committed c ops h).subset he
+  (published_subset_committed_of_not_swallowed c ops h).subset he
 
 /-- publication order = append (sequence) order: published sequences strictly increase -/
 theorem publish_order_eq_append_order (c : Bool) (ops : List Op) (h : (run c St.init ops).swallowed = false) :
     ((run c St.init ops).published.map (·.seq)).Pairwise (· < ·) :=
-  List.Pairwise.sublist ((published_subset_committed c ops h).map _) (sequence_strictly_increasing c ops).1
+  List.Pairwise.sublist ((published_subset_committed_of_not_swallowed c ops h).map _) (sequence_strictly_increasing c ops).1
 
 /-- **published only after commit**: at every moment of every run (every prefix of the op sequence) what
     the subscriber has seen so far is already durable at that moment -/
 theorem published_after_commit (c : Bool) (ops₁ ops₂ : List Op)
     (h : (run c St.init (ops₁ ++ ops₂)).swallowed = false) :
     (run c St.init ops₁).published.Sublist (run c St.init ops₁).durable := by
-  apply published_subset_committed
+  apply published_subset_committed_of_not_swallowed
   cases hs : (run c St.init ops₁).swallowed with
   | false => rfl
   | true =>
@@ -90,7 +93,7 @@ theorem nothing_pending_outside_blocks (c : Bool) (ops : List Op) (h : (run c St
 /-- the hypothesis `swallowed = false` is needed for the code as shipped (`c = false`): an inner block
     rolls back (taking the outer block's append with it — one connection), the exception is swallowed,
     the outer block commits and the rolled-back event is published.  The real `TxnScope` does exactly
-    this (harness suite `txnscope-ops`, finding F24). -/
+    this (harness suite `txnscope-ops`, finding F35). -/
 theorem published_subset_committed_counterexample :
     ¬ (∀ ops : List Op, ∀ e ∈ (run false St.init ops).published, e ∈ (run false St.init ops).durable) := by
   intro h
@@ -102,7 +105,7 @@ theorem published_subset_committed_counterexample :
     op sequences without any hypothesis -/
 theorem published_subset_committed_of_clearing (ops : List Op) :
     (run true St.init ops).published.Sublist (run true St.init ops).durable :=
-  published_subset_committed true ops (clean_run ops St.init ⟨rfl, rfl⟩).2
+  published_subset_committed_of_not_swallowed true ops (clean_run ops St.init ⟨rfl, rfl⟩).2
 
 /-- the unrestricted statement holds **iff** the inner abort clears the queue -/
 theorem published_subset_committed_iff_inner_abort_clears (c : Bool) :
@@ -116,12 +119,28 @@ theorem published_subset_committed_iff_inner_abort_clears (c : Bool) :
     intro ops e he
     exact (published_subset_committed_of_clearing ops).subset he
 
-/-- …for the source tree under check (generated flag: `false` as shipped, `true` with proposed_fixes/F24.diff) -/
+/-- …for the source tree under check (generated flag: `false` as shipped, `true` with commit 50ce0ff) -/
 theorem published_subset_committed_for_source :
     (∀ ops : List Op, ∀ e ∈ (run Stab.Gen.TxnShape.innerAbortClearsPending St.init ops).published,
         e ∈ (run Stab.Gen.TxnShape.innerAbortClearsPending St.init ops).durable)
       ↔ Stab.Gen.TxnShape.innerAbortClearsPending = true :=
   published_subset_committed_iff_inner_abort_clears _
+
+/-- **Every published event is durable, in append order, at every moment — for ALL op sequences, for the
+    source tree under check, without any hypothesis.**  The obligation `innerAbortClearsPending = true`
+    is discharged from the table generated from `abort_store_transaction`; removing the
+    `scope.pending.clear()` of the inner-abort branch again (finding F35) breaks this theorem. -/
+theorem published_subset_committed (ops : List Op) :
+    (run Stab.Gen.TxnShape.innerAbortClearsPending St.init ops).published.Sublist
+      (run Stab.Gen.TxnShape.innerAbortClearsPending St.init ops).durable := by
+  have h : Stab.Gen.TxnShape.innerAbortClearsPending = true := by decide
+  rw [h]; exact published_subset_committed_of_clearing ops
+
+/-- …and therefore published sequences strictly increase (publication order = append order), for the
+    source under check, all op sequences -/
+theorem publish_order_eq_append_order_for_source (ops : List Op) :
+    ((run Stab.Gen.TxnShape.innerAbortClearsPending St.init ops).published.map (·.seq)).Pairwise (· < ·) :=
+  List.Pairwise.sublist ((published_subset_committed ops).map _) (sequence_strictly_increasing _ ops).1
 
 /-- **A rollback publishes nothing** (from every state, at every depth) -/
 theorem abort_publishes_nothing (c : Bool) (s : St) : (step c s .abort).published = s.published := by
@@ -194,6 +213,30 @@ theorem event_durable_iff_state_durable (c : Bool) (s : St) (h0 : s.depth = 0)
   simp only [hrun, hflat]
   refine ⟨?_, ?_, ?_⟩ <;> simp [step, hs1, hu, hw]
 
+/-- **No phantom completion event, no completion without its event** — the shape of the completion
+    steps (`completion_event_inside_commit`: state write and event append inside one block).  For a
+    flat block containing the state write `w` and the event append `a`:
+    * committed: an event with tag `a` is durable and published, and `w` is durable;
+    * killed or rolled back at any point before the commit returns: the durable events, the durable
+      state writes and the subscriber log are exactly what they were before the block. -/
+theorem completion_block_all_or_nothing (c : Bool) (s : St) (h0 : s.depth = 0)
+    (hclean : s.pending = [] ∧ s.uncommitted = [] ∧ s.wUncommitted = [])
+    (body : List Op) (hf : body.all Op.isFlat = true) (w a : Nat)
+    (hw : Op.write w ∈ body) (ha : Op.append a ∈ body) :
+    ((∃ e ∈ (run c s (.begin :: body ++ [.commit])).durable, e.tag = a ∧ e ∈ (run c s (.begin :: body ++ [.commit])).published)
+      ∧ w ∈ (run c s (.begin :: body ++ [.commit])).wDurable)
+    ∧ ((run c s (.begin :: body ++ [.abort])).durable = s.durable
+        ∧ (run c s (.begin :: body ++ [.abort])).wDurable = s.wDurable
+        ∧ (run c s (.begin :: body ++ [.abort])).published = s.published)
+    ∧ ((run c s (.begin :: body ++ [.crash])).durable = s.durable
+        ∧ (run c s (.begin :: body ++ [.crash])).wDurable = s.wDurable
+        ∧ (run c s (.begin :: body ++ [.crash])).published = s.published) := by
+  obtain ⟨⟨hd, hwd, hp⟩, hab, hcr⟩ := event_durable_iff_state_durable c s h0 hclean body hf
+  refine ⟨⟨?_, ?_⟩, hab, hcr⟩
+  · obtain ⟨e, he, ht⟩ := mem_mkEvs_of_append body (nextSeq s) a ha
+    exact ⟨e, by rw [hd]; exact List.mem_append_right _ he, ht, by rw [hp]; exact List.mem_append_right _ he⟩
+  · rw [hwd]; exact List.mem_append_right _ (mem_wTags_of_write body w hw)
+
 /-! ## non-vacuity -/
 
 -- a committed block: event 7 and write 3 durable together, published after the commit
@@ -233,16 +276,12 @@ theorem completion_event_inside_commit :
 
 /-- (module, recorder, position) of the recorder calls that are reviewed and accepted OUTSIDE a transaction
     block.  "after": the state is durable first; a crash in between loses the event (documented
-    best-effort, `_record` docstring).  "before": the event is durable and published first —
-    `skip_stage.py` (finding F10) and `complete_workflow.py`; a crash or a retried delivery between the
-    append and the commit leaves / repeats the event without the state change. -/
+    best-effort, `_record` docstring).  No "before" site is accepted any more: `skip_stage.py` and
+    `complete_workflow.py` used to record before their transaction (finding F10, repaired — they now
+    record inside it); a site recording BEFORE the state-storing block breaks the theorem below. -/
 def reviewedOutside : List (String × String × String) :=
   [("handlers/cancel_stage.py", "record_stage_canceled", "after"),
    ("handlers/cancel_stage.py", "record_task_completed", "after"),
-   ("handlers/complete_workflow.py", "record_workflow_completed", "before"),
-   ("handlers/complete_workflow.py", "record_workflow_canceled", "before"),
-   ("handlers/complete_workflow.py", "record_workflow_failed", "before"),
-   ("handlers/skip_stage.py", "record_stage_skipped", "before"),
    ("handlers/start_stage/handler.py", "record_stage_started", "after"),
    ("handlers/start_task.py", "record_task_started", "after"),
    ("handlers/start_waiting_workflows.py", "record_workflow_started", "after"),
@@ -251,8 +290,7 @@ def reviewedOutside : List (String × String × String) :=
 
 open Stab.Gen.EventSites in
 /-- **Every recorder call that is not inside a transaction block is on the reviewed list** (a new
-    outside-transaction site, or one that moves from "after" to "before", breaks this; moving a listed
-    site INTO its transaction — proposed_fixes/F10.diff — keeps it true). -/
+    outside-transaction site, or one that records BEFORE its state-storing block, breaks this). -/
 theorem outside_transaction_sites_reviewed :
     (sites.filter (fun s => s.kind == "direct" && s.position != "inside")).all
       (fun s => reviewedOutside.contains (s.module, s.callee, s.position)) = true := by
